@@ -469,7 +469,27 @@ def _concat(*args):
     return out
 
 
+def fn_deep_equal(a, b):
+    """fn:deep-equal on sequences of atomic items (F&O 15.3.1): same length, items pairwise eq (NaN equals NaN), incomparable items differ;
+    nodes are compared by identity of the model object (enough for the programs enumerated here: the same node on both sides)"""
+    if len(a) != len(b):
+        return [False]
+    for x, y in zip(a, b):
+        if isinstance(x, float) and isinstance(y, float) and x != x and y != y:
+            continue
+        try:
+            if isinstance(x, Node) or isinstance(y, Node):
+                if x is not y:
+                    return [False]
+            elif not value_eq(x, y):
+                return [False]
+        except ModelError:
+            return [False]
+    return [True]
+
+
 FUNCS = {
+    ('deep-equal', 2): fn_deep_equal,
     ('count', 1): lambda s: [len(s)],
     ('empty', 1): lambda s: [not s],
     ('exists', 1): lambda s: [bool(s)],
